@@ -57,14 +57,16 @@ func (ca *testCA) serve(caCert *x509.Certificate, caKey *ecdsa.PrivateKey) {
 	l, err := tls.Listen("tcp", "127.0.0.1:0", &tls.Config{Certificates: []tls.Certificate{{Certificate: [][]byte{der}, PrivateKey: key}}})
 	must(err)
 	ca.srv, ca.addr = l, l.Addr().String()
-	go func() { _ = http.Serve(l, http.HandlerFunc(func(w http.ResponseWriter, _ *http.Request) { _, _ = w.Write([]byte("ok")) })) }()
+	go func() {
+		_ = http.Serve(l, http.HandlerFunc(func(w http.ResponseWriter, _ *http.Request) { _, _ = w.Write([]byte("ok")) }))
+	}()
 }
 
 type tlsSetting struct {
-	Kind     string `json:"ca"`   // none inline file
-	CA       string `json:"name"` // content name for inline: CA-A CA-B junk
-	File     string `json:"file"` // f1 f2
-	Skip     string `json:"skip"` // u b1 b0 s:<text>
+	Kind     string        `json:"ca"`   // none inline file
+	CA       string        `json:"name"` // content name for inline: CA-A CA-B junk
+	File     string        `json:"file"` // f1 f2
+	Skip     string        `json:"skip"` // u b1 b0 s:<text>
 	Interval time.Duration `json:"interval"`
 }
 
